@@ -549,7 +549,7 @@ def tok_cfg(maxlen, nb, maxtab, maxtoks, padtos):
             "INIT Init\nNEXT Next\nCHECK_DEADLOCK FALSE\n" % (maxlen, nb, maxtab, maxtoks, padtos))
 
 
-def tok_judge(ctx, cases_path, label, prefixes, keep=lambda c: True, extra_case=None):
+def tok_judge(ctx, cases_path, label, prefixes, keep=lambda c: True, extra_case=None, judge_timeout=1500):
     """cases -> real tokenizers -> Trace_Tok; report the clauses of this property only."""
     cases = [c for c in vlib.read_ndjson(cases_path) if keep(c)]
     if extra_case:
@@ -560,7 +560,7 @@ def tok_judge(ctx, cases_path, label, prefixes, keep=lambda c: True, extra_case=
     obs_path = ctx.path("obs-%s.ndjson" % label)
     vlib.harness(["exec", "tok", cpath, obs_path, 20000])
     obs = vlib.read_ndjson(obs_path)
-    fails, drifts, st = vlib.judge(ctx, "Trace_Tok", obs_path, len(obs), name="Trace_Tok-" + label)
+    fails, drifts, st = vlib.judge(ctx, "Trace_Tok", obs_path, len(obs), name="Trace_Tok-" + label, timeout=judge_timeout)
     ntexts = sum(len(o.get("texts", [])) for o in obs)
     ctx.traces += len(obs)
     ctx.evaluations += ntexts + len(obs)
@@ -758,11 +758,11 @@ def c19(ctx):
         tcases.append({"kind": "bpe", "special": {"tokens": ["<pad>", "<b>"], "pad": "<pad>", "prefix": ["<b>"], "suffix": []},
                        "g": False, "unk": "<u>", "max_vocab": 0, "tab": [e["b"] for e in o["tab"]],
                        "tab_ids": [e["id"] for e in o["tab"]], "texts": texts})
-        if len(tcases) >= (400 if q else 4000):
+        if len(tcases) >= (400 if q else 2000):
             break
     tpath = ctx.path("cases-tok.ndjson")
     vlib.write_ndjson(tpath, tcases)
-    tok_judge(ctx, tpath, "trained-tables", {"C02", "C04"})
+    tok_judge(ctx, tpath, "trained-tables", {"C02", "C04"}, judge_timeout=1500 if q else 4000)
 
 
 # ---------------------------------------------------------------------------
